@@ -831,6 +831,10 @@ impl<'a> World<'a> {
                 Some(l) if l > 0 => ((r as usize % l).min(255) as u8, true),
                 _ => (0, true),
             },
+            Sel::Top(k) => match len {
+                Some(l) if l > k as usize => (((l - 1 - k as usize).min(255)) as u8, true),
+                _ => (0, true),
+            },
             Sel::Presel => match (len, last.sel()) {
                 (Some(l), Some(s)) if s < l && s < 256 => (s as u8, true),
                 (Some(_), Some(s)) => (s.min(255) as u8, false),
@@ -1249,6 +1253,26 @@ impl<'a> World<'a> {
         if let Some((r2, kind)) = twin_r {
             match r2 {
                 Ok(s2) => {
+                    if kind == TwinKind::Equal && matches!(self.scenario, Scenario::SessionReset | Scenario::Reconfigure) {
+                        // Both contexts hold what the disk held at the fork plus the same
+                        // commits since, and every learning commit saves the whole map: the
+                        // two stores must hold the same entries.
+                        let a = self.disk.get(FileId::Store).as_deref().and_then(learn::parse_store);
+                        let b = self.slots[h as usize]
+                            .as_ref()
+                            .and_then(|s| s.twin.as_ref())
+                            .and_then(|(t, _)| t.disk.get(FileId::Store))
+                            .as_deref()
+                            .and_then(learn::parse_store);
+                        self.stats.evaluations += 1;
+                        self.stats.bump("oracle.twin_store_compared");
+                        if a != b {
+                            return Err(Stop::Violation(
+                                "twin-store-equal".into(),
+                                format!("after {}: the used context's store holds {:?} but the reference context's store holds {:?}", what, a, b),
+                            ));
+                        }
+                    }
                     if kind == TwinKind::Equal {
                         self.stats.evaluations += 1;
                         if s2 != session_after {
@@ -1467,14 +1491,37 @@ impl<'a> World<'a> {
             self.skip(op, "different_data_dir");
             return Ok(());
         }
+        // C11: a same-layout update after the fork is an event like any other and goes to
+        // the reference context too; any other update ends the lock-step pair (a new
+        // reference context is forked by the next Fork op)
+        let keep_twin = self.scenario == Scenario::Reconfigure
+            && old.layout == cfg.layout
+            && matches!(self.slots[h as usize].as_ref().unwrap().twin, Some((_, TwinKind::Equal)));
         let r = {
             let slot = self.slots[h as usize].as_mut().unwrap();
-            slot.twin = None;
+            if !keep_twin {
+                slot.twin = None;
+            }
             slot.host.update(cfg, &self.env.paths)
         };
         let _ = self.disk.drain_writes();
         if let Err(msg) = r {
             return Err(self.panic_stop(&what, msg));
+        }
+        if keep_twin {
+            let paths = &self.env.paths;
+            let r2 = {
+                let slot = self.slots[h as usize].as_mut().unwrap();
+                slot.twin.as_mut().map(|(t, _)| t.update(cfg, paths))
+            };
+            if let Some(Err(msg)) = r2 {
+                return Err(self.panic_stop(&format!("{} (reference context)", what), msg));
+            }
+            self.stats.bump("probe.update_in_lock_step");
+            self.note(|| format!("{} (also applied to the reference context)", what));
+            let slot = self.slots[h as usize].as_mut().unwrap();
+            slot.fe.reset();
+            return Ok(());
         }
         self.note(|| what.clone());
         self.digest = fnv_add(self.digest, &[b'u', h]);
@@ -1937,8 +1984,17 @@ impl<'a> World<'a> {
         for (i, op) in plan.ops.iter().enumerate() {
             self.cur = i;
             crate::watch::enter_call(i);
-            let stepped = self.step(op);
+            let mut stepped = self.step(op);
             crate::watch::leave_call();
+            if stepped.is_ok() && self.scenario == Scenario::Crashfree {
+                if let Some((at, dt)) = self.slow_call {
+                    // a blow-up in time (and usually memory) must not be allowed to run on
+                    stepped = Err(Stop::Violation(
+                        "time-bound".into(),
+                        format!("call #{} took {} ms (bound {} ms)", at, dt / 1_000_000, self.opts.time_bound_ns / 1_000_000),
+                    ));
+                }
+            }
             match stepped {
                 Ok(()) => {}
                 Err(Stop::Violation(clause, detail)) => {
